@@ -34,7 +34,7 @@ ASSUMPTIONS = [
     "(as a fresh source grid reports it) is inside the region with a 1e-7 margin (closer cases are not generated); cross-section = faces with an edge whose end-node z "
     "values lie strictly on opposite sides of sin(lat), decided with a 1e-12 margin",
     "result faces are compared by position with the source faces named by subgrid_face_indices; order is whatever the recorded indices say",
-    "fully functional = C02/C03 set models hold on the result for its own face table, and node/face/edge geometry equals independent geodesy on the result's own arrays",
+    "fully functional = C02/C03 set models hold on the result for its own face table, every node/face/edge coordinate, area and distance equals the fresh source's value restricted to the recorded indices, and (for sources that do not supply them) equals independent geodesy on the result's own arrays",
     "native numba thread interleavings are not controllable: they are covered as configurations (thread counts x layers) and by exhaustive iteration-order exploration of the kernel's Python body with footprint-based independence",
 ]
 BOUNDS = {
@@ -44,7 +44,7 @@ BOUNDS = {
 MATS = ["edge_node_connectivity", "face_edge_connectivity", "edge_face_connectivity", "node_face_connectivity", "face_lon", "edge_lon", "node_x", "face_areas"]
 SAT = MATS + ["face_face_connectivity", "edge_node_distances", "edge_face_distances", "bounds", "hole_edge_indices", "n_nodes_per_face", "edge_node_z"]
 GRIDS_Q = ["mixedpatch", "cube", "ships:pyr5"]
-GRIDS_T = GRIDS_Q + ["amstrip", "prism"]
+GRIDS_T = GRIDS_Q + ["amstrip", "prism", "mpas:pyr5"]
 
 
 def _grid(name):
@@ -56,6 +56,11 @@ def _grid(name):
         keys = sorted(conn.edge_model(m.faces), key=lambda k: sorted(k))
         en = np.array([sorted(k) for k in reversed(keys)], dtype=np.intp)
         return ux.Grid.from_topology(lon.copy(), lat.copy(), m.table(), fill_value=build.FILL, edge_node_connectivity=en), m
+    if name.startswith("mpas:"):
+        from vf.alpha import dialects as D
+
+        m = meshes.get(name[5:])
+        return ux.open_grid(D.mpas(m, optional="all")[0]), m
     m = meshes.get(name)
     return build.grid(m), m
 
@@ -226,7 +231,7 @@ def _apply(sel, obj):
 
 
 # ----------------------------------------------------------------------------- judging a result
-def judge(R, m, expected, bad, deep=True):
+def judge(R, m, expected, bad, deep=True, src_grid=None, supplied=False):
     """R: result Grid of a selection on mesh m (source order)."""
     src = F.faces_of_mesh(m)
     try:
@@ -271,6 +276,24 @@ def judge(R, m, expected, bad, deep=True):
     for it in v.items:
         bad("c09:functional:" + it["sig"], "on the result grid: " + it["msg"])
     if v.items:
+        return
+    # every geometric quantity on the result = the source's quantity restricted to the selection
+    if src_grid is not None:
+        try:
+            ds = R._ds
+            idx = {"n_face": np.asarray(ds["subgrid_face_indices"].values).astype(int), "n_node": np.asarray(ds["subgrid_node_indices"].values).astype(int), "n_edge": np.asarray(ds["subgrid_edge_indices"].values).astype(int)}
+            for q in ("node_lon", "node_lat", "node_x", "node_y", "node_z", "face_lon", "face_lat", "face_x", "face_y", "face_z", "edge_lon", "edge_lat", "edge_x", "edge_y", "edge_z", "face_areas", "edge_node_distances", "edge_face_distances_boundary_free", "n_nodes_per_face"):
+                if q == "edge_face_distances_boundary_free":
+                    continue  # edges can become boundary edges in a subset: not a restriction
+                a = np.asarray(getattr(R, q).values)
+                b = np.asarray(getattr(src_grid, q).values)
+                dim = getattr(R, q).dims[0]
+                want = b[idx[dim]]
+                if a.shape != want.shape or not np.allclose(a.astype(float), want.astype(float), rtol=1e-12, atol=1e-12):
+                    bad("c09:functional:restriction:%s" % q, "%s on the result is not the source's %s restricted to the recorded %s indices" % (q, q, dim))
+        except Exception as e:
+            bad("c09:functional:restriction-raises:%s" % type(e).__name__, "reading geometry on the result raised %r" % (e,))
+    if supplied:
         return
     # geometry on the result vs independent geodesy on the result's own arrays
     try:
@@ -437,7 +460,8 @@ def _run_select(case, res):
             if nfr != 0:
                 bad("c09:nonempty-for-empty-reference", "returned a grid with %d faces, reference selection is empty" % nfr)
             continue
-        judge(R, m, expected, bad, deep=True)
+        src_fresh, _ = _grid(gname)
+        judge(R, m, expected, bad, deep=True, src_grid=src_fresh, supplied=gname.startswith("mpas:"))
         res["outcomes"].append(digest(sorted(expected)))
         # data: on every 3rd selection (all kinds are hit), with the same prior history
         if si % 3 == 0 or "only" in case:
